@@ -19,11 +19,11 @@ use std::io::{BufWriter, Write};
 #[global_allocator]
 static GLOBAL: Counting = Counting;
 
-const SCHEMES: &[&str] = &["s", "http", "a+b.c-d", "urn"];
-const USERS: &[&str] = &["", "u", "u:p", "%40", "é", "a;b=c"];
-const HOSTS: &[&str] = &["", "h", "example.org", "1.2.3.4", "[::1]", "[1:2::3.4.5.6]", "[v7.a:b]", "%41", "é.x", "xn--e"];
+const SCHEMES: &[&str] = &["s", "http", "a+b.c-d", "urn", "svn+ssh", "x-1.2"];
+const USERS: &[&str] = &["", "u", "%75", "u:p", "%40", "é", "a;b=c", "~", "%7E", "service-account-with-a-long-name-0123456789", "ééééééééééééééééé"];
+const HOSTS: &[&str] = &["", "h", "%68", "ex%61mple.org", "caf%C3%A9.x", "café.x", "[v1.é]", "example.org", "1.2.3.4", "[::1]", "[1:2::3.4.5.6]", "[v7.a:b]", "%41", "é.x", "xn--e"];
 const PORTS: &[&str] = &["", "8", "080", "65535"];
-const SEGS: &[&str] = &["", "a", "b", ".", "..", "b:c", "1:c", "é", "%2F", "%2e", "@", "a;p=1", "😀", "longer-segment-name", "~", "!$&'()*+,;=", "b..", "...", ".a", "a."];
+const SEGS: &[&str] = &["", "a", "b", ".", "..", "b:c", "1:c", "é", "%2F", "%2e", "@", "a;p=1", "😀", "longer-segment-name", "~", "!$&'()*+,;=", "b..", "...", ".a", "a.", "%2E%2E", "%2e%2e", ".%2E", "%2e", "é:b", "été:2024", "naïve", "ÿ£¿", "は", "%2f", "%2F"];
 const QUERIES: &[&str] = &["", "q", "a:b/c?d", "x=1&y=2", "é", "\u{E000}", "%3F", "/?"];
 const FRAGS: &[&str] = &["", "f", "a/b?c", "x?y/z:@", "é", "%23"];
 
@@ -332,6 +332,15 @@ macro_rules! auth_session {
 				1 => ("set_host", Some(pick(&mut $r, HOSTS).to_string())),
 				_ => ("set_port", if $r.gen_bool(0.7) { Some(pick(&mut $r, PORTS).to_string()) } else { None }),
 			};
+			// an argument that is not a valid value of its type is skipped (nothing is called)
+			let valid = match op {
+				"set_userinfo" => arg.as_deref().map(|x| iref::$m::UserInfo::new(x).is_ok()).unwrap_or(true),
+				"set_host" => iref::$m::Host::new(arg.as_deref().unwrap()).is_ok(),
+				_ => arg.as_deref().map(|x| iref::$m::Port::new(x).is_ok()).unwrap_or(true),
+			};
+			if !valid {
+				continue;
+			}
 			let res = guard(|| {
 				match op {
 					"set_userinfo" => am.set_userinfo(arg.as_deref().map(|x| iref::$m::UserInfo::new(x).unwrap())),
